@@ -7,6 +7,7 @@ pub mod clock;
 pub mod conc;
 pub mod crash;
 pub mod faults;
+pub mod growth;
 pub mod handles;
 pub mod index;
 pub mod l2checks;
@@ -24,6 +25,7 @@ pub fn all() -> Vec<&'static dyn Check> {
     v.extend(clock::checks());
     v.extend(index::checks());
     v.extend(vector::checks());
+    v.extend(growth::checks());
     v.extend(faults::checks());
     v
 }
